@@ -106,6 +106,20 @@ def canon(kind, lines):
         for i in range(len(lines) - 1, -1, -1):
             if lines[i].startswith("  -totals"):
                 return lines[:i]
+    if kind == "pp":
+        # `-eltList` ("List of all elements in phases") is rebuilt by tidy_pp_assemblage for every assemblage that is
+        # touched by a keyword (e.g. after EQUILIBRIUM_PHASES_MODIFY it loses the scaling of EQUILIBRIUM_PHASES_MIX)
+        out, skip = [], False
+        for ln in lines:
+            if ln.startswith("  -eltList"):
+                skip = True
+                out.append("  -eltList")
+                continue
+            if skip and ln.startswith("    ") and not ln.strip().startswith("-"):
+                continue
+            skip = False
+            out.append(ln)
+        return out
     if kind == "solution":
         # derived transport data that calculations *using* a solution write back into the stored object
         # (initial_surfaces / initial_exchangers: use.Get_solution_ptr()->Set_viscosity(...)); counted separately
@@ -654,7 +668,7 @@ def run(ctx):
     phases = load_phases(db)
     templates = harvest_templates(exe, db)
     cfg = facts["copy_loop"]
-    nh = ctx.n(160, 5000)
+    nh = ctx.n(3000, 12000)
     max_ops = ctx.n(15, 40)
     if not ok:
         nh, max_ops = max(nh, 2000), 40
@@ -752,15 +766,30 @@ def replay(ctx, data):
 
 
 MANIFEST = dict(
-    technique="Lean 4 refinement proof (association-list store vs abstract finite map, induction over op sequences) + "
-              "differential correspondence of random input histories on the real engine (DUMP -all, component list)",
-    text="Theorems (Properties/C14.lean over Model/Store.lean): find/put/erase laws of the std::map model; closed forms "
-         "of Rxn_copy, Rxn_copies, Rxn_copy loops, the COPY loop (int and size_t variants), DELETE; refines_map for every "
-         "sequence of store operations; independence across kinds; delete_exact, copy_content_eq, range_define, "
-         "save_overwrites, components_superset. Correspondence: per call, which (kind, number) exist, content-token "
-         "equality classes, descriptions, MODIFY locality, predicted stops, component superset; RUN_CELLS vs USE+SAVE "
-         "on the engine. Source facts (loop variable type of copy_entities, saver fan-out) re-read every run.",
-    note="Trusted: harness/ph_store.cpp, the DUMP splitter and comparison in tools/props/c14.py, the schedule of phases "
-         "in Model/Store.lean (validated by the correspondence, not proved against C++). Content is an opaque token: "
-         "the chemistry of a calculation is outside the model; calculations ending in other errors are counted, not judged.",
+    technique="Lean 4 refinement proof (association-list store of the keyword drivers vs the abstract finite map "
+              "(kind, number) -> entry; induction over arbitrary sequences of store operations) + differential "
+              "correspondence of random input histories on the real engine (DUMP -all, component list, error stops)",
+    text="Theorems (Properties/C14.lean over Model/Store.lean, Lemmas/Store.lean): find/put/erase laws of the std::map "
+         "model; closed map-level forms of Rxn_copy, the chained Rxn_copies loop, the Rxn_copy loops, the COPY loop, "
+         "DELETE, MODIFY; refines_map / refines_content for every sequence of store operations; other_kinds_untouched and "
+         "ops_commute_across_kinds; delete_exact, delete_all_exact; copy_content_eq (signed loop), "
+         "copy_content_eq_partial + the two counter-examples of the size_t loop; copy_then_write_independent (no "
+         "aliasing); range_define / save_overwrites (every number of a range is overwritten); modify_local; "
+         "use_reads_only; representation invariant (ascending keys, key = n_user) kept by every operation, "
+         "abs_injective (the concrete store holds nothing beyond the abstract map); components_superset. "
+         "Correspondence per RunString call: same (kind, number) set and order as pmodel store predicts, equal dump "
+         "text for entries the model gives the same content token (also across time: untouched entries stay "
+         "unchanged), descriptions, MODIFY changes only the named line, predicted 'not found' / input-error stops, "
+         "every element of every dumped entry is in GetComponent; RUN_CELLS on cell n vs USE of every reactant n + "
+         "SAVE n on the engine. Source facts re-read every run: loop variable type of the 11 loops of copy_entities "
+         "(selects the model variant), Rxn_copies vs Rxn_copy-loop fan-out in saver, loop shape of Rxn_copies.",
+    note="Trusted: harness/ph_store.cpp, the DUMP splitter / canonicalisation / comparison in tools/props/c14.py, and the "
+         "schedule of phases of one simulation in Model/Store.lean (readInput … deleteEntities): it is validated by the "
+         "correspondence, not proved against the C++; that every map mutation of the schedule is one of the proved "
+         "store operations is checked at run time by pmodel (maps = recorded operations applied to the empty store). "
+         "Content is an opaque token: what a calculation computes is outside the model; calls ending in other errors "
+         "or not finishing are counted, not judged. Left out of 'same content': KINETICS trailing -totals (refilled "
+         "by GetComponentCount), SOLUTION -viscosity/-viscos_0 (written back by initial surface/exchange "
+         "calculations that use the solution), EQUILIBRIUM_PHASES -eltList (rebuilt by tidy). Known departures "
+         "reported as findings: copy-range-negative-start, copy-range-runaway (size_t loop in copy_entities).",
 )
